@@ -28,3 +28,5 @@ register_driver('db.DB.', 'index_scenario.py')
 register_driver('block_processor.BlockProcessor.', 'index_scenario.py')
 register_driver('mempool.MemPool.', 'mempool_native.py')
 register_driver('session.SessionManager.merkle_branch', 'session_handlers.py')
+for _f in ('_notify_inner', 'notify', 'subscription_address_status', 'address_status', 'hashX_subscribe', 'send_notification'):
+    register_driver('session.ElectrumX.' + _f + '.', 'notify_native.py')
